@@ -89,7 +89,7 @@ pub fn cases(ctx: &Ctx) -> Vec<Case> {
         return v;
     }
     let mut rng = Rng::derive(ctx.seed, &[0xC18]);
-    let n = if ctx.quick() { 3000 } else { 300_000 };
+    let n = if ctx.quick() { 12000 } else { 400_000 };
     for _ in 0..n {
         v.push(Case::Pair(rng.next()));
         v.push(Case::Ed(rng.next()));
@@ -141,7 +141,7 @@ pub fn cases(ctx: &Ctx) -> Vec<Case> {
         }
     }
     // nested length overflows, indefinite lengths, huge lengths, random bytes
-    let extra = if ctx.quick() { 20_000 } else { 600_000 };
+    let extra = if ctx.quick() { 120_000 } else { 2_000_000 };
     for i in 0..extra {
         let mut m = bases[i % 4].clone();
         for _ in 0..1 + rng.usize_below(4) {
